@@ -443,11 +443,11 @@ def parent_main(prop, tier):
                 prop, k["what"], fid, known.get(fid, 0)))
     if rc == 2:
         print("HARNESS-ERROR property=%s" % prop)
-        for e in errors[:3]:
-            print(e)
+        for e in errors[:2]:
+            print(e[-1500:])
         if killed:
             print("killed on timeout:", killed)
-        print(logtxt[-2000:])
+        print(logtxt[-800:])
     print("%s %s: evaluations=%d distinct_nontrivial=%d known=%s violations=%d wall=%.1fs" % (
         prop, tier, evaluations, len(nontrivial), dict(known), violations, wall))
     return rc
